@@ -31,7 +31,53 @@ def sig_of_reject(rej):
     return kind
 
 
-def stage_cases(rep, work, binpath, cases, name, spec="Trace_Load", shards=8, jvms=12, env=None, xmx="3g", per_case_timeout=60):
+STRUCT_FIELDS = {"width", "height", "size", "num_frames", "num_layers", "pixel_format", "transparent_index", "is_indexed", "durations",
+                 "frame_ids", "layers", "layers_iter", "layer_by_name", "num_tags", "tags", "get_tag_out_of_range", "tag_by_name", "slices",
+                 "palette", "external_files", "tilesets", "debug"}
+TILE_FIELDS = {"tilemap.size", "tilemap.tile_size", "tilemap.tile_offsets", "tilemap.pixel_offsets", "tilemap.tileset", "tilemap.lookup",
+               "tilemap.lookup_far", "tilemap.unexpected", "tileset_images", "cel.tilemap_some", "tilemaps_complete", "tilemap_out_of_range"}
+UD_FIELDS = {"user_data.layer", "user_data.cel", "user_data.tag", "user_data.slice", "user_data.sprite"}
+# which observation fields (names printed by TLC) concern which property; None = every field
+FIELDS = {
+    "C01": STRUCT_FIELDS | {"load_result"},
+    "C02": {"frame.image", "frames_complete"},
+    "C06": {"cel.image", "cel.facts", "cels_complete"},
+    "C07": None,
+    "C08": TILE_FIELDS | {"tilemap.image_is_cel_image"},
+    "C09": {"parents", "visible", "frame.image"},
+    "C10": UD_FIELDS | {"parser_state_after_chunk"},
+    "C11": {"palette", "load_result"},
+    "C16": None,
+    "C19": {"cel.routes_agree", "frame.single_layer_equals_cel", "tilemap.image_is_cel_image"},
+    "C05": {"panics", "usable", "load_result"},
+}
+
+
+def relevant_sig(pid, sig, fields=None):
+    """Route a TLC verdict to the property it concerns. Returns the (filtered) signature or None."""
+    allowed = fields if fields is not None else FIELDS.get(pid)
+    if allowed is None:
+        return sig
+    kind = sig.split(":")[0]
+    if kind == "observation":
+        parts = sig.split(":")
+        fs = [f for f in parts[1].split(",") if f]
+        if fs == ["panics"]:
+            return sig if "panics" in allowed else None
+        keep = [f for f in fs if f in allowed]
+        return ("observation:" + ",".join(keep)) if keep else None
+    if kind == "usable":
+        return sig if "usable" in allowed else None
+    if kind == "load_result":
+        # panics/aborts at load time concern C04; a refusal of a well-formed file concerns C01/C07/C11/C15...
+        res = sig.split(":")[1]
+        if res in ("panic", "abort", "hang", "stack_overflow", "killed"):
+            return sig if pid in ("C04", "C12") or "crash" in allowed else None
+        return sig if "load_result" in allowed else None
+    return sig if kind in allowed else None
+
+
+def stage_cases(rep, work, binpath, cases, name, spec="Trace_Load", shards=8, jvms=12, env=None, xmx="3g", per_case_timeout=60, fields=None):
     """cases.ndjson -> harness workers -> NDJSON traces -> TLC trace validation."""
     t0 = time.time()
     outs, n, crashes = run_workers(binpath, cases, work.path(name), shards=shards, extra_env=env, per_case_timeout=per_case_timeout)
@@ -42,10 +88,19 @@ def stage_cases(rep, work, binpath, cases, name, spec="Trace_Load", shards=8, jv
     rep.cov["evaluations"] += n
     for e in res["errors"]:
         rep.error(f"stage {name}: {e}")
+    other = 0
     for rej in res["rejects"]:
+        sig = relevant_sig(rep.pid, sig_of_reject(rej), fields)
+        if sig is None:
+            other += 1
+            continue
         cid = reject_case_id(rej)
         c = find_case(cases, cid) or {"id": cid}
-        rep.violation(sig_of_reject(rej), re.sub(r"\s+", " ", rej)[:1200], {"property": rep.pid, "stage": name, "case": c, "tlc": rej, "spec": spec})
+        rep.violation(sig, re.sub(r"\s+", " ", rej)[:1200], {"property": rep.pid, "stage": name, "case": c, "tlc": rej, "spec": spec})
+    if other:
+        rep.cov.setdefault("rejects_attributed_to_other_properties", 0)
+        rep.cov["rejects_attributed_to_other_properties"] += other
+        log(f"[{rep.pid}] stage {name}: {other} rejects concern fields of other properties (not reported here)")
     rep.stage(name, cases=n, harness_s=round(t1 - t0, 1), tlc_s=round(res["wall"], 1), tlc_states=res["distinct"],
               outcomes=dict(zip(["ok", "err", "either", "unstructured"], res["outcomes"])), rejects=len(res["rejects"]), crashes=len(crashes))
     log(f"[{rep.pid}] stage {name}: {n} cases, harness {t1-t0:.1f}s, tlc {res['wall']:.1f}s, outcomes {res['outcomes']}, rejects {len(res['rejects'])}")
@@ -117,3 +172,246 @@ def replay(pid, path, work, rep):
     rep.final = dict(rule="replay of one recorded case", trusted=TRUSTED)
     rep.cov["distinct_nontrivial"] = 1
     return rep.finish(**rep.final)
+
+
+# ------------------------------------------------------------------------------------------
+# Direction A: TLC enumerates programs (MC_*.tla), the harness replays them, TLC validates.
+def mc_run(rep, work, module, constants, invariants, workers=8, timeout=3000, name=None):
+    """Model-check MC_<module> with the given constants; returns path of TLC's output (PROG/MENU prints)."""
+    name = name or module
+    cfg = work.path(f"{name}.cfg")
+    with open(cfg, "w") as f:
+        f.write("SPECIFICATION Spec\nCONSTANTS\n")
+        for k, v in constants.items():
+            f.write(f"  {k} = {v}\n")
+        f.write("INVARIANTS " + " ".join(invariants) + "\nCHECK_DEADLOCK FALSE\n")
+    out = work.path(f"{name}.tlc.out")
+    rc, _, wall = run_tlc(f"{module}.tla", cfg, workers=workers, timeout=timeout, outfile=out, extra=["-coverage", "1"] if False else None)
+    text_tail = subprocess.run(["grep", "-vE", '^<<"(PROG|MENU)"', out], capture_output=True, text=True).stdout
+    gen_, dist = tlc_summary(text_tail)
+    if "Model checking completed. No error has been found." not in text_tail:
+        errs = [l for l in text_tail.splitlines() if "rror" in l or "violated" in l][:5]
+        raise ToolError(f"model check of {module} did not complete cleanly (spec-level problem, not an implementation verdict): {errs} rc={rc}")
+    rep.add_model(gen_, dist)
+    rep.stage(f"model:{name}", states=dist, transitions=gen_, constants=constants, invariants=invariants, wall_s=round(wall, 1))
+    log(f"[{rep.pid}] model {name}: {dist} states, {wall:.1f}s")
+    return out, dist
+
+
+def write_cases(path, it):
+    n = 0
+    with open(path, "w") as f:
+        for c in it:
+            f.write(json.dumps(c) + "\n")
+            n += 1
+    return n
+
+
+def batched_stage(rep, work, binpath, cases, name, batch=30000, **kw):
+    """stage_cases in batches so that traces on disk stay small."""
+    total = {"outcomes": [0, 0, 0, 0], "rejects": [], "errors": [], "generated": 0, "distinct": 0}
+    with open(cases) as f:
+        k = 0
+        while True:
+            part = work.path(f"{name}.b{k}.ndjson")
+            n = 0
+            with open(part, "w") as o:
+                for line in f:
+                    o.write(line)
+                    n += 1
+                    if n >= batch:
+                        break
+            if n == 0:
+                os.remove(part)
+                break
+            res = stage_cases(rep, work, binpath, part, f"{name}.b{k}", **kw)
+            for i in range(4):
+                total["outcomes"][i] += res["outcomes"][i]
+            total["rejects"] += res["rejects"]
+            os.remove(part)
+            k += 1
+            if len(rep.violations) >= 20:
+                break
+    return total
+
+
+HDR1 = {"w": 1, "h": 1, "depth": 32}
+
+
+def cel1(layer, x=0, color=(1, 1, 1, 255)):
+    return {"k": "cel", "layer": layer, "x": x, "y": 0, "opacity": 255, "ctype": 0, "w": 1, "h": 1, "px": [list(color)]}
+
+
+def expand_forest(d, maxn):
+    lv, vis = d["levels"], d["vis"]
+    n = len(lv)
+    chunks, cels = [], []
+    for i in range(n):
+        group = i + 1 < n and lv[i + 1] > lv[i]
+        chunks.append({"k": "layer", "flags": 1 if vis[i] else 0, "ltype": 1 if group else 0, "level": lv[i], "name": [65 + (i + 1) % 26]})
+        if not group:
+            j = i + 1
+            cels.append(cel1(i, x=i, color=((10 * j) % 256, (20 * j) % 256, (30 * j) % 256, 255)))
+    return {"hdr": {"w": maxn, "h": 1, "depth": 32, "speed": 100}, "frames": [{"dur": 100, "chunks": chunks + cels}]}
+
+
+IGN_CYCLE = [{"k": "celextra", "body": [0] * 20}, {"k": "mask", "body": [1, 2, 3]}, {"k": "path", "body": []},
+             {"k": "profile", "ptype": 1, "flags": 0}, {"k": "profile", "ptype": 0, "flags": 0}]
+
+
+def ud_chunk(pos):
+    m = pos % 4
+    if m == 0:
+        return {"k": "ud", "text": [[85, 48 + pos]], "color": []}
+    if m == 1:
+        return {"k": "ud", "text": [], "color": [[pos, 2, 3, 255]]}
+    if m == 2:
+        return {"k": "ud", "text": [[85, 48 + pos]], "color": [[pos, 5, 6, 7]]}
+    return {"k": "ud", "text": [[48 + pos]], "color": []}
+
+
+def expand_ud(syms, idx=0):
+    chunks = []
+    for pos, s in enumerate(syms, start=1):
+        k = s[0]
+        if k == "layer":
+            chunks.append({"k": "layer", "flags": 1, "name": [76]})
+        elif k == "cel":
+            chunks.append(cel1(s[1], color=(pos, pos, pos, 255)))
+        elif k == "slice":
+            chunks.append({"k": "slice", "name": [83], "flags": 0, "keys": []})
+        elif k == "tags":
+            chunks.append({"k": "tags", "tags": [{"from": 0, "to": 0, "dir": 0, "repeat": 0, "name": [84, 48 + i]} for i in range(1, s[1] + 1)]})
+        elif k == "oldpal":
+            # the two legacy kinds are collapsed in the model and cycled here
+            kind = "oldpal04" if (idx + pos) % 2 == 0 else "oldpal11"
+            chunks.append({"k": kind, "packets": [{"skip": 0, "count": 1, "rgb": [[1, 2, 3]]}]})
+        elif k == "newpal":
+            chunks.append({"k": "pal", "first": 0, "last": 0, "total": "1", "entries": [{"flags": 0, "rgba": [9, 9, 9, 255], "name": []}]})
+        elif k == "ign":
+            chunks.append(IGN_CYCLE[(idx + pos) % len(IGN_CYCLE)])
+        elif k == "ud":
+            chunks.append(ud_chunk(pos))
+    return {"hdr": dict(HDR1, speed=100), "frames": [{"dur": 100, "chunks": chunks}]}
+
+
+def c09(rep, work, tier, seed):
+    b = build("dev")
+    maxn = 6 if tier == "quick" else 8
+    out, states = mc_run(rep, work, "MC_Forest", {"MaxLayers": maxn, "ImageLayers": 6}, ["ForestInv", "Export"], workers=10)
+    cases = work.path("forest.ndjson")
+    n = write_cases(cases, ({"id": f"forest-{i}", "mode": "full", "meta": {"gen": "g1", "desc": d}, "prog": expand_forest(d, maxn)}
+                            for i, d in enumerate(map(json.loads, extract_json_prints(out, "PROG")))))
+    if n != states:
+        rep.error(f"exported {n} programs for {states} model states")
+    rep.sample(first_cases(cases, 300)[-1])
+    res = batched_stage(rep, work, b, cases, "forest", batch=40000)
+    # deep forests beyond the exhaustive bound (G3-style, depth up to 200)
+    deep = work.path("deep.ndjson")
+    import random
+    rnd = random.Random(seed)
+    def deep_cases():
+        for i in range(20 if tier == "quick" else 200):
+            depth = rnd.choice([9, 17, 40, 120, 200])
+            lv, vis = [], []
+            for j in range(depth):
+                lv.append(0 if j == 0 else rnd.randint(max(0, lv[-1] - 2), lv[-1] + 1))
+                vis.append(rnd.random() < 0.85)
+            yield {"id": f"deepforest-{seed}-{i}", "mode": "full", "meta": {"gen": "g3-forest"}, "prog": expand_forest({"levels": lv, "vis": vis}, min(depth, 64))}
+    write_cases(deep, deep_cases())
+    res2 = stage_cases(rep, work, b, deep, "deep-forests")
+    need_ok(rep, res, "forest", 0.99)
+    rep.cov["distinct_nontrivial"] = res["outcomes"][0] + res2["outcomes"][0]
+    rep.final = dict(rule=f"every layer level sequence of <= {maxn} layers forming a forest x every visible-flag vector (TLC BFS, exhaustive), "
+                          "each replayed in the implementation and validated by TLC (parents, is_visible, frame image); plus random deep forests",
+                     trusted=TRUSTED, exhaustive=True)
+
+
+def c10(rep, work, tier, seed):
+    b = build("dev")
+    maxlen = 5 if tier == "quick" else 7
+    out, states = mc_run(rep, work, "MC_UD", {"MaxLen": maxlen}, ["UDOwnerInv", "NoStrayInv", "AcceptedInv", "IgnoredStutterInv", "Export"], workers=10)
+    cases = work.path("ud.ndjson")
+    n = write_cases(cases, ({"id": f"ud-{i}", "mode": "full", "meta": {"gen": "g1", "syms": s}, "prog": expand_ud(s, i)}
+                            for i, s in enumerate(map(json.loads, extract_json_prints(out, "PROG")))))
+    if n != states:
+        rep.error(f"exported {n} programs for {states} model states")
+    rep.sample(first_cases(cases, 2000)[-1])
+    res = batched_stage(rep, work, b, cases, "ud", batch=60000)
+    need_ok(rep, res, "ud", 0.99)
+    # longer random sequences from the same spec (TLC -simulate), length <= 30
+    rep.cov["distinct_nontrivial"] = res["outcomes"][0]
+    rep.final = dict(rule=f"every chunk sequence of length <= {maxlen} over layer/cel/slice/tags(1,2)/legacy palette/new palette/ignorable/user data "
+                          "satisfying C10's side conditions (TLC BFS, exhaustive; invariants UDOwnerInv, NoStrayInv, IgnoredStutterInv), each replayed "
+                          "and validated by TLC incl. the parser's context after every chunk (hook)",
+                     trusted=TRUSTED, exhaustive=True)
+
+
+def c11(rep, work, tier, seed):
+    b = build("dev")
+    k = 2 if tier == "quick" else 3
+    out, states = mc_run(rep, work, "MC_Palette", {"MaxChunks": k, "MaxPixels": 2}, ["PaletteInv", "Export"], workers=8)
+    menu = [json.loads(m) for m in extract_json_prints(out, "MENU")][0]
+    def progs():
+        for i, d in enumerate(map(json.loads, extract_json_prints(out, "PROG"))):
+            if not d["enforced"]:
+                continue
+            chunks = [menu[j - 1] for j in d["seq"]] + [{"k": "layer", "flags": 1, "name": [76]}]
+            if d["px"]:
+                chunks.append({"k": "cel", "layer": 0, "ctype": 2, "w": len(d["px"]), "h": 1, "px": [[v] for v in d["px"]]})
+            yield {"id": f"pal-{i}", "mode": "full", "meta": {"gen": "g1", "desc": d},
+                   "prog": {"hdr": {"w": 2, "h": 1, "depth": 8, "tidx": 0, "speed": 100}, "frames": [{"dur": 100, "chunks": chunks}]}}
+    cases = work.path("pal.ndjson")
+    n = write_cases(cases, progs())
+    rep.sample(first_cases(cases, 40)[-1])
+    res = stage_cases(rep, work, b, cases, "palette-sequences")
+    # G3: sprites with random palettes of all three kinds (full 256-entry ranges included in 'struct')
+    g3 = work.path("g3.ndjson")
+    gen(b, g3, "cel", seed, 150 if tier == "quick" else 3000)
+    res2 = stage_cases(rep, work, b, g3, "g3-cel")
+    if res["outcomes"][1] == 0:
+        rep.error("no palette program was classified must-fail: the missing-index rule was not exercised")
+    rep.cov["distinct_nontrivial"] = res["outcomes"][0] + res["outcomes"][1]
+    rep.final = dict(rule=f"all sequences of <= {k} palette chunks from a 7-entry menu (new ranges, legacy packets, cumulative skip, count byte 0) x all "
+                          "indexed pixel vectors of <= 2 pixels over {0,1,4,5,7,255} (TLC BFS); enforced for <= 1 chunk per format; plus random indexed sprites",
+                     trusted=TRUSTED, exhaustive=True)
+
+
+CHECKS.update({"C09": (c09, "model_checking"), "C10": (c10, "model_checking"), "C11": (c11, "model_checking")})
+
+
+def g3_check(pid, profile, nq, nt, rule, extra=None):
+    def f(rep, work, tier, seed):
+        b = build("dev")
+        cases = work.path("g3.ndjson")
+        gen(b, cases, profile, seed, nq if tier == "quick" else nt)
+        res = stage_cases(rep, work, b, cases, f"g3-{profile}")
+        need_ok(rep, res, f"g3-{profile}", 0.95)
+        rep.sample(first_cases(cases, 1, 6000)[0])
+        rep.cov["distinct_nontrivial"] = res["outcomes"][0]
+        if extra:
+            extra(rep, work, tier, seed, b)
+        rep.final = dict(rule=rule, trusted=TRUSTED)
+    return f
+
+
+def corpus_cases():
+    import glob
+    files = sorted(glob.glob("/repo/tests/data/*.aseprite") + glob.glob("/repo/examples/**/*.aseprite", recursive=True))
+    return files
+
+
+CHECKS.update({
+    "C02": (g3_check("C02", "render", 300, 6000,
+                     "random/boundary sprites (canvas <= 6x6, <= 5 layers, all 19 modes, opacities, hidden layers/groups, linked and tilemap cels, "
+                     "offsets incl. i16 extremes); every pixel of every frame image recomputed by TLC from AseRender.FrameImage"), "model_checking"),
+    "C06": (g3_check("C06", "cel", 400, 8000,
+                     "random/boundary sprites in the three pixel formats (sparse palettes, alpha < 255, all transparent-index positions, background "
+                     "flag, raw/zlib/stored storage, links); every cel image and cel fact recomputed by TLC (AseRender.CelImage)"), "model_checking"),
+    "C08": (g3_check("C08", "tile", 400, 8000,
+                     "random sprites with tilesets (tile sizes 1..3, counts 1..4, three formats) and tilemap cels at tile-aligned offsets incl. "
+                     "off-canvas; tile lookups on a grid incl. far coordinates, tilemap image, tile/tileset images recomputed by TLC"), "model_checking"),
+    "C19": (g3_check("C19", "default", 400, 8000,
+                     "random sprites with non-square frame x layer counts; the three cel routes, single-visible-layer frames and tilemap images "
+                     "compared by TLC"), "model_checking"),
+})
